@@ -408,6 +408,18 @@ def system2mpc(system) -> dict:
         branch[:, 9] = system.Line.phi.v * rad2deg
         branch[:, 10] = system.Line.u.v
 
+        # the MATPOWER branch table only has the total charging susceptance:
+        # conductance of the charging branch and the extra shunts at either
+        # end of a branch go to the buses (from side referred through the tap)
+        line = system.Line
+        pos1 = system.Bus.idx2uid(line.bus1.v)
+        pos2 = system.Bus.idx2uid(line.bus2.v)
+        itap2 = line.u.v / line.tap.v ** 2
+        np.add.at(bus[:, 4], pos1, itap2 * (line.g1.v + 0.5 * line.g.v) * base_mva)
+        np.add.at(bus[:, 5], pos1, itap2 * line.b1.v * base_mva)
+        np.add.at(bus[:, 4], pos2, line.u.v * (line.g2.v + 0.5 * line.g.v) * base_mva)
+        np.add.at(bus[:, 5], pos2, line.u.v * line.b2.v * base_mva)
+
     mpc['bus_name'] = np.array(system.Bus.name.v)
 
     return mpc
